@@ -148,6 +148,8 @@ def extract(unit_list, repo=None, extra_args=(), roots=None, tag=''):
         if not os.path.exists(src):
             raise AnalysisBroken('translation unit missing: ' + u)
         rts = roots or [repo.rstrip('/') + '/']
+        if os.path.isabs(u) and not roots:
+            rts = rts + [os.path.dirname(u).rstrip('/') + '/']     # witness units: their own explicit instantiations are wanted too
         cmd = [BIN, '--out=' + out + '.tmp'] + ['--root=' + r for r in rts] + list(extra_args) + [src, '--'] + flags_for(u, repo)
         p = subprocess.run(cmd, stdout=subprocess.PIPE, stderr=subprocess.PIPE, text=True)
         if p.returncode != 0 or not os.path.exists(out + '.tmp'):
